@@ -988,10 +988,10 @@ func (cr *ConRun) runTxn() {
 	}
 	switch cr.Res.Outcome {
 	case "deadlock":
-		cr.viol("C12", "no-progress:deadlock", strings.Join(firstN(cr.Res.Blocked, 12), "; "))
+		cr.viol(txnWorkloadProp("C12"), "no-progress:deadlock", strings.Join(firstN(cr.Res.Blocked, 12), "; "))
 		return
 	case "panic":
-		cr.Viol = append(cr.Viol, Violation{Property: "C04", Class: "panic-under-concurrency", Detail: fmt.Sprintf("task %s: %s [%s]", cr.Res.PanicTask, cr.Res.PanicVal, repoFrames(cr.Res.PanicStack, 6)), Site: panicSite(cr.Res.PanicStack)})
+		cr.Viol = append(cr.Viol, Violation{Property: txnWorkloadProp("C04"), Class: "panic-under-concurrency", Detail: fmt.Sprintf("task %s: %s [%s]", cr.Res.PanicTask, cr.Res.PanicVal, repoFrames(cr.Res.PanicStack, 6)), Site: panicSite(cr.Res.PanicStack)})
 		return
 	case "ok":
 	default:
@@ -1021,6 +1021,18 @@ func (cr *ConRun) runTxn() {
 	if v := abortTraceCheck(rows, hist, final); v != nil {
 		cr.Viol = append(cr.Viol, *v)
 	}
+}
+
+// txnWorkloadProp: a deadlock or an engine panic in the multi-statement transaction workloads (txn, txnwal,
+// logwrap) violates whichever of the transaction properties is under test (a statement that neither
+// returns nor aborts; no-wait locking cannot deadlock legitimately): it is reported by the running check
+// instead of being counted as an observation for a property whose own check never runs this workload.
+func txnWorkloadProp(dflt string) string {
+	switch flProp {
+	case "C03", "C04", "C05", "C08":
+		return flProp
+	}
+	return dflt
 }
 
 func firstN(xs []string, n int) []string {
